@@ -3,7 +3,7 @@
   Trusted glue: not part of any theorem.
 -/
 import Lean.Data.Json
-import BiscuitModel.Model.Datalog
+import BiscuitModel.Model.Intern
 open Lean
 namespace Biscuit.Codec
 
@@ -222,5 +222,128 @@ def runErrOut : RunErr → String
   | .tooManyFacts => "limit:TooManyFacts"
   | .timeout => "limit:Timeout"
   | .outOfFuel => "MODEL-OUT-OF-FUEL"
+
+
+/-! ### string-level programs (pool indices; collections in the builder's iteration order) -/
+
+partial def parseTermRaw (j : Json) : P Term := do
+  if let some v := fieldOpt j "set" then
+    return .set (← (← getArr v).mapM parseTermRaw)
+  if let some v := fieldOpt j "arr" then
+    return .arr (← (← getArr v).mapM parseTermRaw)
+  if let some v := fieldOpt j "map" then
+    let kvs ← (← getArr v).mapM fun kv => do
+      match ← getArr kv with
+      | [k, t] =>
+        let key ← (do
+          if let some x := fieldOpt k "i" then return MapKey.int (← getInt x)
+          if let some x := fieldOpt k "s" then return MapKey.str (← getNat x)
+          throw "bad map key" : P MapKey)
+        pure (key, ← parseTermRaw t)
+      | _ => throw "bad map entry"
+    return .map kvs
+  parseTerm j
+
+partial def parseOpRaw (j : Json) : P Op := do
+  if let some v := fieldOpt j "val" then return .value (← parseTermRaw v)
+  if let some v := fieldOpt j "clo" then
+    match ← getArr v with
+    | [ps, ops] =>
+      let ps ← (← getArr ps).mapM getNat
+      let ops ← (← getArr ops).mapM parseOpRaw
+      return .closure ps ops
+    | _ => throw "bad closure"
+  parseOp j
+
+def parsePredRaw (j : Json) : P Predicate := do
+  let n ← getNat (← field j "n")
+  let ts ← (← getArr (← field j "t")).mapM parseTermRaw
+  pure ⟨n, ts⟩
+
+def parseScope (j : Json) : P Scope := do
+  match j with
+  | .str "authority" => pure .authority
+  | .str "previous" => pure .previous
+  | _ =>
+    if let some k := fieldOpt j "key" then return .publicKey (← getNat k)
+    throw s!"bad scope {j.compress}"
+
+def parseQRule (j : Json) : P QRule := do
+  let h ← parsePredRaw (← field j "h")
+  let b ← (← getArr (← field j "b")).mapM parsePredRaw
+  let e ← (← getArr (← field j "e")).mapM fun e => do (← getArr e).mapM parseOpRaw
+  let sc ← (← getArr (← field j "sc")).mapM parseScope
+  pure ⟨⟨h, b, e⟩, sc⟩
+
+def parseCheck (j : Json) : P Check := do
+  let k ← (← field j "k").getStr?
+  let kind ← (match k with
+    | "one" => pure CheckKind.one
+    | "all" => pure CheckKind.all
+    | "reject" => pure CheckKind.reject
+    | _ => throw "bad check kind" : P CheckKind)
+  let qs ← (← getArr (← field j "q")).mapM parseQRule
+  pure ⟨kind, qs⟩
+
+def parsePolicy (j : Json) : P Policy := do
+  let k ← (← field j "k").getStr?
+  let qs ← (← getArr (← field j "q")).mapM parseQRule
+  pure ⟨if k == "allow" then .allow else .deny, qs⟩
+
+def parseBlock (j : Json) : P Block := do
+  let fs ← (← getArr (← field j "facts")).mapM parsePredRaw
+  let rs ← (← getArr (← field j "rules")).mapM parseQRule
+  let cs ← (← getArr (← field j "checks")).mapM parseCheck
+  let sc ← (← getArr (← field j "sc")).mapM parseScope
+  let ext : Option Nat := match fieldOpt j "ext" with
+    | some (.num n) => some n.mantissa.toNat
+    | _ => none
+  pure ⟨fs, rs, cs, sc, ext⟩
+
+def parseAz (j : Json) : P AuthorizerData := do
+  let fs ← (← getArr (← field j "facts")).mapM parsePredRaw
+  let rs ← (← getArr (← field j "rules")).mapM parseQRule
+  let cs ← (← getArr (← field j "checks")).mapM parseCheck
+  let ps ← (← getArr (← field j "policies")).mapM parsePolicy
+  let sc ← (← getArr (← field j "sc")).mapM parseScope
+  pure ⟨fs, rs, cs, ps, sc⟩
+
+def parsePool (j : Json) : P (List Str) := do
+  (← getArr j).mapM fun s => do pure (← s.getStr?).toUTF8.toList
+
+def strOut (b : List UInt8) : Json :=
+  match String.fromUTF8? (ByteArray.mk b.toArray) with
+  | some s => Json.str s
+  | none => Json.str (hex b)
+
+/-- terms in query answers: strings by content -/
+partial def termStr (get : Nat → Option Str) : Term → Json
+  | .var v => Json.mkObj [("v", v)]
+  | .int i => Json.mkObj [("i", Json.num (JsonNumber.fromInt i))]
+  | .str s =>
+    match get s with
+    | some b => Json.mkObj [("s", strOut b)]
+    | none => Json.mkObj [("s?", s)]
+  | .date d => Json.mkObj [("d", d)]
+  | .bytes b => Json.mkObj [("b", hex b)]
+  | .bool b => Json.mkObj [("t", b)]
+  | .set xs => Json.mkObj [("set", Json.arr (xs.map (termStr get)).toArray)]
+  | .null => Json.mkObj [("null", (0 : Nat))]
+  | .arr xs => Json.mkObj [("arr", Json.arr (xs.map (termStr get)).toArray)]
+  | .map kvs => Json.mkObj [("map", Json.arr (kvs.map fun kv =>
+      Json.arr #[(match kv.1 with
+        | .int i => Json.mkObj [("i", Json.num (JsonNumber.fromInt i))]
+        | .str s => match get s with
+          | some b => Json.mkObj [("s", strOut b)]
+          | none => Json.mkObj [("s?", s)]), termStr get kv.2]).toArray)]
+
+def factStr (get : Nat → Option Str) (f : Fact) : Json :=
+  Json.mkObj [("n", match get f.name with | some b => strOut b | none => Json.str "<?>"),
+              ("t", Json.arr (f.terms.map (termStr get)).toArray)]
+
+def failedOut (fs : List FailedCheck) : Json :=
+  Json.arr (fs.map fun f => match f with
+    | .authorizer i => Json.arr #[Json.str "authorizer", (i : Json)]
+    | .block b i => Json.arr #[(b : Json), (i : Json)]).toArray
 
 end Biscuit.Codec
